@@ -423,8 +423,8 @@ struct QExpression {
                     Value.Number.Real = -Value.Number.Real;
                 }
 
-                if ((Value.Number.Real < 1.0) && (Value.Number.Real > 0.0)) {
-                    // No power of fraction at the moment.
+                if (double(SizeT64I(Value.Number.Real)) != Value.Number.Real) {
+                    // No power of fraction at the moment (2.5^2 must not be computed as 2^2).
                     Value.Number.Natural = SizeT64{0};
                     Type                 = ExpressionType::NotANumber;
                     return false;
@@ -465,8 +465,8 @@ struct QExpression {
                     right_real = -right_real;
                 }
 
-                if ((right_real < 1.0) && (right_real > 0.0)) {
-                    // No power of fraction at the moment.
+                if (double(SizeT64I(right_real)) != right_real) {
+                    // No power of fraction at the moment (7^1.5 must not be computed as 7^1).
                     Value.Number.Natural = SizeT64{0};
                     Type                 = ExpressionType::NotANumber;
                     return false;
